@@ -407,4 +407,85 @@ theorem multi_abort_commits_none (p : Pg) (hc : p.drv.cur = none) (hnf : NoFault
   unfold Pg.abort
   rw [(rollback_cur _).2, h2, s2]
 
+/-! ### reads inside an explicit transaction -/
+
+theorem query_in_multi (q : Pg) (id : Nat) (pend : Store)
+    (hcur : q.drv.cur = some { id := id, pending := pend, poisoned := false }) (hnf : NoFaults q.drv) (k : Bytes) :
+    (q.query k).1 = some (q.drv.view k) ∧ (q.query k).2.multi = q.multi ∧
+    (q.query k).2.drv.committed = q.drv.committed ∧ NoFaults (q.query k).2.drv ∧
+    (q.query k).2.drv.cur = some { id := id, pending := pend, poisoned := false } := by
+  have hqm : q.drv.calls ∉ q.drv.faults := fun h => by have := hnf _ h; omega
+  have hqm1 : q.drv.calls + 1 ∉ q.drv.faults := fun h => by have := hnf _ h; omega
+  have nf1 : ∀ i ∈ q.drv.faults, i < q.drv.calls + 1 := fun i hi => by have := hnf i hi; omega
+  have nf2 : ∀ i ∈ q.drv.faults, i < q.drv.calls + 1 + 1 := fun i hi => by have := hnf i hi; omega
+  cases hv : q.drv.view k with
+  | none =>
+    have hv' := hv
+    simp only [Drv.view, hcur] at hv'
+    simp [Pg.query, Drv.stmt, Drv.prim, Drv.view, hcur, hqm, hv', NoFaults]
+    exact nf1
+  | some v =>
+    have hv' := hv
+    simp only [Drv.view, hcur] at hv'
+    simp [Pg.query, Drv.stmt, Drv.prim, Drv.scan, Drv.view, hcur, hqm, hqm1, hv', NoFaults]
+    exact nf2
+
+/-- **A read inside an explicit transaction does not end it** (the clause a second-wave seeded change broke: a translated
+read committed the enclosing transaction): in an open, healthy explicit transaction with no fault pending, a `Get` that
+finds its value - through the translation key or the default key - returns what the transaction sees, leaves the
+transaction open with the same pending writes, and the committed table untouched. -/
+theorem get_found_in_multi (q : Pg) (id : Nat) (pend : Store) (hm : q.multi = true)
+    (hcur : q.drv.cur = some { id := id, pending := pend, poisoned := false }) (hnf : NoFaults q.drv)
+    (tr : Option Bytes) (dk v : Bytes) (hres : (q.get tr dk).1 = .val v) :
+    (q.get tr dk).2.multi = true ∧ (q.get tr dk).2.drv.committed = q.drv.committed ∧ NoFaults (q.get tr dk).2.drv ∧
+    (q.get tr dk).2.drv.cur = some { id := id, pending := pend, poisoned := false } := by
+  have hstart : q.start = (true, q) := by simp [Pg.start, hcur]
+  -- the default-key part, from any state with the same shape
+  have viaDefault : ∀ (p : Pg), p.multi = true → p.drv.cur = some { id := id, pending := pend, poisoned := false } →
+      NoFaults p.drv → p.drv.committed = q.drv.committed →
+      ∀ r p', (match p.query dk with
+        | (none, p) => (PgRes.err "query", p.abort)
+        | (some none, p) => (.err "notfound", p.abort)
+        | (some (some v), p) =>
+          match p.stopSingle with
+          | (.ok, p) => (.val v, p)
+          | (r, p) => (r, p)) = (r, p') → r = .val v →
+      p'.multi = true ∧ p'.drv.committed = q.drv.committed ∧ NoFaults p'.drv ∧
+      p'.drv.cur = some { id := id, pending := pend, poisoned := false } := by
+    intro p pm pc pn pcm r p' h hr
+    obtain ⟨q1, q2, q3, q4, q5⟩ := query_in_multi p id pend pc pn dk
+    rcases hq : p.query dk with ⟨res, p1⟩
+    rw [hq] at h q1 q2 q3 q4 q5
+    simp only at q1 q2 q3 q4 q5
+    subst q1
+    cases hv : p.drv.view dk with
+    | none => simp [hv] at h; obtain ⟨h1, _⟩ := h; rw [← h1] at hr; cases hr
+    | some w =>
+      have hss : p1.stopSingle = (.ok, p1) := by simp [Pg.stopSingle, q2, pm]
+      simp [hv, hss] at h
+      obtain ⟨_, h2⟩ := h
+      subst h2
+      exact ⟨by rw [q2, pm], by rw [q3, pcm], q4, q5⟩
+  unfold Pg.get at hres ⊢
+  simp only [hstart, Bool.not_true, Bool.false_eq_true, if_false] at hres ⊢
+  cases tr with
+  | none =>
+    simp only at hres ⊢
+    exact viaDefault q hm hcur hnf rfl _ _ rfl hres
+  | some t =>
+    simp only at hres ⊢
+    obtain ⟨q1, q2, q3, q4, q5⟩ := query_in_multi q id pend hcur hnf t
+    rcases hq : q.query t with ⟨res, p1⟩
+    rw [hq] at hres q1 q2 q3 q4 q5
+    simp only at q1 q2 q3 q4 q5
+    subst q1
+    cases hv : q.drv.view t with
+    | none =>
+      simp only [hv] at hres ⊢
+      exact viaDefault p1 (by rw [q2, hm]) q5 q4 q3 _ _ rfl hres
+    | some w =>
+      have hss : p1.stopSingle = (.ok, p1) := by simp [Pg.stopSingle, q2, hm]
+      simp only [hv, hss] at hres ⊢
+      exact ⟨by rw [q2, hm], q3, q4, q5⟩
+
 end Vise.C13
